@@ -597,6 +597,13 @@ func restClientStep(ev tr.Ev, cl *client.Client, rec *restRecTransport, st restS
 	ev["resp"] = tr.Ev{}
 	var err error
 	done := func() {
+		// a panic inside the client library is an answer of its own kind (the contract knows no such answer)
+		if r := recover(); r != nil {
+			err = nil
+			ev["http"] = rec.take()
+			ev["st"], ev["err"], ev["resp"] = "panic", fmt.Sprint(r), tr.Ev{}
+			return
+		}
 		ev["http"] = rec.take()
 		if err != nil {
 			ev["st"] = "err"
